@@ -28,8 +28,47 @@ ASSUMPTIONS = ['CCodeWriter label accessors forward to FunctionState (checked, A
                'OpenMP reduction identifiers: OpenMP 5.2 section 5.5.5, implicitly declared identifiers for C/C++ (frozen in sa/rules/pC37.py)']
 EXEMPT = {}
 
-# single-edit variants tried on a scratch copy (file, edit, rule that reported it) -- see final builder report
-MUTATIONS = []
+# Single-edit variants tried on a scratch copy: (file, edit, rule/construct that reported it).  All 27 breaking edits were
+# reported with exit 1; the behaviour-preserving ones stayed silent.
+MUTATIONS = [
+    ('Cython/Compiler/Nodes.py', 'trap_parallel_exit: `i + 1` -> `i + 2`', 'C37-WHY why:case:*'),
+    ('Cython/Compiler/Nodes.py', 'end_parallel_control_flow_block: "case 2: " -> "case 3: "', 'C37-WHY why:case:break + why:case:dup:3'),
+    ('Cython/Compiler/Nodes.py', 'end_parallel_control_flow_block: "%s = 4;" -> "%s = 3;"', 'C37-WHY why:prefer-error'),
+    ('Cython/Compiler/Nodes.py', 'generate_loop: body guard "if (%s < 2)" -> "< 3"', 'C37-WHY why:guard:ParallelRangeNode.generate_loop'),
+    ('Cython/Compiler/Nodes.py', 'generate_execution_code: else guard "< 2" -> "<= 2"', 'C37-WHY why:guard:ParallelRangeNode.generate_execution_code'),
+    ('Cython/Compiler/Code.py', 'FunctionState.get_all_labels: swap continue_label/break_label in the returned tuple', 'C37-WHY why:case:continue, why:case:break, why:guard:*'),
+    ('Cython/Compiler/Nodes.py', 'trap_parallel_exit: `if label == code.error_label` -> `code.return_label`', 'C37-WHY why:fetch-on-error + why:flag:error'),
+    ('Cython/Compiler/Nodes.py', 'ParallelRangeNode: `return_=self.return_label_used` -> `self.breaking_label_used`', 'C37-WHY why:flag:return:ParallelRangeNode'),
+    ('Cython/Compiler/Nodes.py', 'case 2: `put_goto(code.break_label)` -> `code.return_label`', 'C37-WHY why:case:return + why:flag:return:ParallelWithBlockNode'),
+    ('Cython/Compiler/Nodes.py', 'case 4: delete `self.restore_parallel_exception(code)`', 'C37-WHY why:error:restore'),
+    ('Cython/Compiler/Nodes.py', 'delete the `%s = 4;` prefer-error store', 'C37-WHY why:prefer-error'),
+    ('Cython/Compiler/Nodes.py', 'generate_loop: delete the body guard emission', 'C37-WHY why:body-guard:ParallelRangeNode.generate_loop'),
+    ('Cython/Compiler/Nodes.py', 'restore_labels: swap self.old_return_label / self.old_error_label', 'C37-LBL lbl:restore:return + lbl:restore:error'),
+    ('Cython/Compiler/Nodes.py', 'ParallelRangeNode.generate_execution_code: delete `self.restore_labels(code)`', 'C37-LBL lbl:order:...:else-before-restore, end-before-restore, no-restore'),
+    ('Cython/Compiler/Nodes.py', 'ParallelWithBlockNode: move restore_labels after end_parallel_control_flow_block', 'C37-LBL lbl:order:...:end-before-restore'),
+    ('Cython/Compiler/Nodes.py', 'setup: `code.new_error_label()` -> `code.error_label`', 'C37-LBL lbl:fresh:error'),
+    ('Cython/Compiler/Nodes.py', 'ParallelWithBlockNode: call trap_parallel_exit before body.generate_execution_code', 'C37-LBL lbl:body-before-trap:...'),
+    ('Cython/Compiler/Code.py', 'FunctionState.set_all_labels: swap return_label/error_label targets', 'C37-LBL lbl:restore:return + lbl:restore:error'),
+    ('Cython/Compiler/Nodes.py', 'fetch_parallel_exception: delete put_release_freethreading_lock()', 'C37-EXC exc:fetch_parallel_exception:unbalanced:lock'),
+    ('Cython/Compiler/Nodes.py', 'restore_parallel_exception: zip(self.pos_info, self.parallel_pos_info) -> swapped', 'C37-EXC exc:restore_parallel_exception:posinfo'),
+    ('Cython/Compiler/Nodes.py', 'fetch: move put_acquire_freethreading_lock() after the `if (!exc_type) {` test', 'C37-EXC exc:fetch_parallel_exception:guard-outside-lock'),
+    ('Cython/Compiler/Nodes.py', 'restore: delete put_giveref(parallel_exc_type)', 'C37-EXC exc:refnanny'),
+    ('Cython/Compiler/Nodes.py', 'fetch: "if (!%s) {" -> "if (%s) {"', 'C37-EXC exc:fetch_parallel_exception:unguarded-fetch'),
+    ('Cython/Compiler/Nodes.py', 'restore: end_block() before put_release_ensured_gil()', 'C37-EXC exc:restore_parallel_exception:block-closed-early'),
+    ('Cython/Compiler/TypeInference.py', 'visit_ParallelStatNode: pop after visiting the else clause', 'C37-STK stk:visit_ParallelStatNode:else'),
+    ('Cython/Compiler/TypeInference.py', 'visit_ParallelStatNode: delete the pop in the non-prange branch', 'C37-STK stk:visit_ParallelStatNode'),
+    ('Cython/Compiler/Nodes.py', 'generate_loop: reduction operators "+*-&^|" -> "+*-&^|/"', 'C37-RED red:/'),
+]
+SILENT_EDITS = [   # behaviour-preserving, all stayed silent (exit 0)
+    '`i + 1` -> `1 + i`; `enumerate(all_labels, 1)` with `i = idx - 1`',
+    'body guard "< 2" -> "<= 1"',
+    '"%s = 4;" % Naming.parallel_why -> f-string',
+    'swap the `if break_:` and `if return_:` case blocks',
+    'restore_labels through a local (`saved_labels = ...; code.set_all_labels(saved_labels)`)',
+    'reformat the parallel_exc tuple; swap its first two elements (both transfer calls use the same tuple)',
+    'reorder the two label_used() reads in ParallelWithBlockNode',
+    'rename local all_labels and parameter break_ (all sites); move restore_parallel_exception above fetch_parallel_exception',
+]
 
 
 def run(ctx):
